@@ -712,3 +712,81 @@ package engine
 //@   property C03
 //@   nosafety
 //@   at-call cut requires[cuts-to-own-call] a0 == p
+
+//@ ---------------------------------------------------------------- operator table (C18)
+
+//@ type operatorSpecifier invariant[valid] self == 1 || self == 2 || self == 5 || self == 6 || self == 9 || self == 10 || self == 11
+//@ type operatorClass invariant[valid] self <= 2
+
+//@ spec fun cls(s operatorSpecifier) int = ite(s == 1 || s == 2, 0, ite(s == 5 || s == 6, 1, 2))
+//@ spec fun emptyOp(o operator) bool = o.priority == 0 && o.specifier == 0 && o.name == 0
+//@ spec fun isOp(o operator, p Integer, s operatorSpecifier, n Atom) bool = o.priority == p && o.specifier == s && o.name == n
+
+//@ axiom[atoms-distinct] distinct(atomComma, atomBar, atomEmptyBlock, atomEmptyList)
+
+//@ func operatorSpecifier.class
+//@   property C18
+//@   modifies nothing
+//@   ensures[iso-class] result == cls(s)
+
+//@ func operatorSpecifier.arity
+//@   property C18
+//@   modifies nothing
+//@   ensures[arity] result == ite(cls(s) == 2, 2, 1)
+
+//@ func (*operator).bindingPriorities
+//@   property C18
+//@   requires o != nil && 1 <= o.priority && o.priority <= 1200
+//@   modifies nothing
+//@   let p = o.priority
+//@   ensures[fx] o.specifier == 1 ==> result0 == 1202 && result1 == p - 1
+//@   ensures[fy] o.specifier == 2 ==> result0 == 1202 && result1 == p
+//@   ensures[xf] o.specifier == 5 ==> result0 == p - 1 && result1 == 1202
+//@   ensures[yf] o.specifier == 6 ==> result0 == p && result1 == 1202
+//@   ensures[xfx] o.specifier == 9 ==> result0 == p - 1 && result1 == p - 1
+//@   ensures[xfy] o.specifier == 10 ==> result0 == p - 1 && result1 == p
+//@   ensures[yfx] o.specifier == 11 ==> result0 == p && result1 == p - 1
+
+//@ func (*operators).init
+//@   property C18
+//@   requires ops != nil
+//@   modifies *ops
+//@   ensures[non-nil] *ops != nil
+//@   ensures[keeps] old(*ops) != nil ==> *ops == old(*ops)
+//@   ensures[fresh-when-nil] old(*ops) == nil ==> fresh(*ops)
+//@   ensures[view-unchanged] forall n Atom :: (*ops)[n] == old((*ops)[n]) && has(*ops, n) == old(has(*ops, n))
+
+//@ func (*operators).definedInClass
+//@   property C18
+//@   requires ops != nil
+//@   modifies *ops
+//@   ensures[non-nil] *ops != nil
+//@   ensures[keeps] old(*ops) != nil ==> *ops == old(*ops)
+//@   ensures[fresh-when-nil] old(*ops) == nil ==> fresh(*ops)
+//@   ensures[view-unchanged] forall n Atom :: (*ops)[n] == old((*ops)[n]) && has(*ops, n) == old(has(*ops, n))
+//@   ensures[answer] result == !emptyOp(old((*ops)[name][class]))
+
+//@ func (*operators).defined
+//@   property C18
+//@   requires ops != nil
+//@   modifies *ops
+//@   ensures[view-unchanged] forall n Atom :: (*ops)[n] == old((*ops)[n]) && has(*ops, n) == old(has(*ops, n))
+//@   ensures[answer] result == old(has(*ops, name))
+
+//@ func (*operators).define
+//@   property C18
+//@   requires ops != nil && (*ops != nil || p == 0 || true)
+//@   modifies *ops
+//@   ensures[zero-priority-is-a-no-op] p == 0 ==> *ops == old(*ops) && forall n Atom :: (*ops)[n] == old((*ops)[n]) && has(*ops, n) == old(has(*ops, n))
+//@   ensures[defines] p != 0 ==> has(*ops, op) && isOp((*ops)[op][cls(spec)], p, spec, op)
+//@   ensures[other-classes] p != 0 ==> forall c operatorClass :: c != cls(spec) ==> (*ops)[op][c] == old((*ops)[op][c])
+//@   ensures[other-names] p != 0 ==> forall n Atom :: n != op ==> (*ops)[n] == old((*ops)[n]) && has(*ops, n) == old(has(*ops, n))
+
+//@ func (*operators).remove
+//@   property C18
+//@   requires ops != nil
+//@   modifies *ops
+//@   ensures[slot-cleared] emptyOp((*ops)[name][class])
+//@   ensures[other-classes] forall c operatorClass :: c != class ==> (*ops)[name][c] == old((*ops)[name][c])
+//@   ensures[other-names] forall n Atom :: n != name ==> (*ops)[n] == old((*ops)[n]) && has(*ops, n) == old(has(*ops, n))
+//@   ensures[no-empty-row] (forall c operatorClass :: emptyOp((*ops)[name][c])) ==> !has(*ops, name)
